@@ -417,6 +417,8 @@ def run(ctx, impl_only=False):
                             # second cycles across formats: pickle bytes reloaded with the JSON serializer dump as JSON text, JSON text reloaded
                             # with the default serializer dumps as a pickle; each reloads as the same payload
                             try:
+                                if not json_plain(d.diff):
+                                    raise StopIteration          # set payloads become lists in the order the set happens to list its members: compared by behaviour above
                                 cross1 = Delta(b, bidirectional=bidir, always_include_values=aiv, serializer=json_dumps).dumps()
                                 if not isinstance(cross1, str) or pkl.symb(Delta(cross1, bidirectional=bidir, always_include_values=aiv, deserializer=json_loads).diff) != pkl.symb(dj.diff):
                                     ctx.violate(dict(case, channel='pickle->json'), 'a delta reloaded from pickle bytes with serializer=json_dumps does not dump as the JSON text of its payload')
@@ -424,6 +426,8 @@ def run(ctx, impl_only=False):
                                 if not isinstance(cross2, bytes) or pkl.symb(Delta(cross2, bidirectional=bidir, always_include_values=aiv).diff) != pkl.symb(dj.diff):
                                     ctx.violate(dict(case, channel='json->pickle'), 'a delta reloaded from JSON text with the default serializer does not dump as a pickle of its payload')
                                 ctx.count('channel:cross_format')
+                            except StopIteration:
+                                pass
                             except Exception as e:
                                 ctx.violate(dict(case, channel='cross_format'), 'a second dump / load cycle across formats raised %s: %s' % (type(e).__name__, str(e)[:100]))
                             outs = [outcome(lambda b_=b_: copy.deepcopy(b_) + mkj()) for b_ in bases]
